@@ -45,6 +45,7 @@ type Contract struct {
 	Loops      map[int]*LoopContract
 	Implements string // abstract contract name
 	Satisfies  map[string]string // param name -> abstract contract name
+	CallAs     map[string]string // callee key -> abstract contract used for that callee inside this function (trusted)
 	Params     []SParam // for abstract contracts / trusted specs: explicit parameter names
 	Results    []SParam
 	Assigns    []AssignClause
@@ -201,7 +202,7 @@ func (cs *Contracts) loadFile(path, pkgPath, pkgName string) error {
 		}
 		switch word {
 		case "func", "lemma", "contract":
-			cur = &Contract{Pkg: pkgPath, File: path, Line: ln, Loops: map[int]*LoopContract{}, Satisfies: map[string]string{}}
+			cur = &Contract{Pkg: pkgPath, File: path, Line: ln, Loops: map[int]*LoopContract{}, Satisfies: map[string]string{}, CallAs: map[string]string{}}
 			curLoop = nil
 			cs.All = append(cs.All, cur)
 			if word == "contract" {
@@ -266,6 +267,14 @@ func (cs *Contracts) loadFile(path, pkgPath, pkgName string) error {
 			cur.Fresh = append(cur.Fresh, strings.Fields(strings.ReplaceAll(rest, ",", " "))...)
 		case "implements":
 			cur.Implements = rest
+		case "callas":
+			// callas CALLEE CONTRACT: inside this function, calls of CALLEE are
+			// specified by the named abstract contract (a trusted, local spec)
+			fs := strings.Fields(rest)
+			if len(fs) != 2 || cur == nil {
+				return fmt.Errorf("%s:%d: callas CALLEE CONTRACT", path, ln)
+			}
+			cur.CallAs[qualifyFuncKey(fs[0], pkgName)] = fs[1]
 		case "satisfies":
 			// satisfies param contractName
 			fs := strings.Fields(rest)
